@@ -18,6 +18,12 @@ Reqs == IF DoReq THEN ndJsonDeserialize("c03_eval.ndjson") ELSE <<>>
 
 CONSTANT DoOpt    \* BOOLEAN: include the define / pure / drop / drop-labels family
 CONSTANT D1All    \* BOOLEAN: every depth-1 expression in all three contexts (FALSE: in one context chosen by Seed)
+CONSTANTS DoCx,   \* BOOLEAN: include the context x operand-kind family
+          CxFull, \* BOOLEAN: operand kinds over every operator (FALSE: one seeded operator per class)
+          CxMod,  \* 0: the covering sample of the cx / xc families only; n >= 1: plus the seeded 1/n of the full product
+          DoXc,   \* BOOLEAN: include the outer-constant family (cross-module const / enum / define)
+          D1Mod,  \* take the depth-1 expressions whose hash is 0 modulo D1Mod (1: all), rotated by Seed
+          SkelMod \* the same for the statement skeletons
 
 VARIABLES kind,   \* "d1" | "skel" | "rnd" | "req" | "opt"
           idx,    \* index of a random program / request; the context number for "d1"; 0 for "skel"; index into DefVals for "opt"
@@ -32,16 +38,17 @@ AllStrs == << "lit", "probe", "var", "glob", "rec", "un", "bin", "log", "cond", 
               "-", "+", "!", "~", "typeof", "void", "*", "/", "%", "**", "<<", ">>", ">>>", "&", "|", "^",
               "==", "!=", "===", "!==", "<", ">", "<=", ">=", "&&", "||", "??",
               "=", "+=", "-=", "*=", "/=", "%=", "**=", "<<=", ">>=", ">>>=", "&=", "|=", "^=", "&&=", "||=", "??=",
-              "undef", "null", "bool", "int", "nzero", "nan", "pinf", "ninf", "str", "big", "obj" >>
+              "undef", "null", "bool", "int", "nzero", "nan", "pinf", "ninf", "str", "big", "obj",
+              "tpl", "sprd", "cconst", "K1", "K0", "KT", "KF", "KA", "KE", "KN", "KU" >>
 Code(str) == IF \E c \in 1..Len(AllStrs) : AllStrs[c] = str THEN CHOOSE c \in 1..Len(AllStrs) : AllStrs[c] = str ELSE 0
 RECURSIVE HashN(_)
 RECURSIVE HashL(_, _)
 HashL(ns, c) == IF c > Len(ns) THEN 0 ELSE ((c + 1) * HashN(ns[c]) + HashL(ns, c + 1)) % 30011
 HashN(n) == (Code(n.k) * 7 + Code(n.op) * 13 + n.n * 17
-             + (IF n.k = "lit" THEN Code(n.v.t) * 5 + n.v.sg + Len(n.v.m) + 3 * Len(n.v.s) ELSE 0)
+             + (IF n.k \in {"lit", "cconst"} THEN Code(n.v.t) * 5 + n.v.sg + Len(n.v.m) + 3 * Len(n.v.s) ELSE 0)
              + 3 * HashL(n.a, 1)) % 30011
 
-KindNo(kd) == CASE kd = "d1" -> 1 [] kd = "skel" -> 2 [] kd = "rnd" -> 3 [] kd = "req" -> 4 [] kd = "opt" -> 5
+KindNo(kd) == CASE kd = "d1" -> 1 [] kd = "skel" -> 2 [] kd = "rnd" -> 3 [] kd = "req" -> 4 [] kd = "opt" -> 5 [] kd = "cx" -> 6 [] kd = "xc" -> 7
 RECURSIVE Rows(_, _)
 Rows(g, n) == IF n = 0 THEN <<>>
               ELSE LET ri == Draw(g, Q) rj == Draw(ri.g, Q) IN << <<ri.i - 1, rj.i - 1>> >> \o Rows(rj.g, n - 1)
@@ -52,13 +59,21 @@ RowsOf(kd, ix, pr) ==
 
 RECURSIVE Export(_)
 Export(n) == IF n.k = "lit" THEN [k |-> "lit", v |-> n.v]
+             ELSE IF n.k = "cconst" THEN [k |-> "cconst", op |-> n.op, v |-> n.v]
              ELSE [k |-> n.k, op |-> n.op, n |-> n.n, a |-> [c \in 1..Len(n.a) |-> Export(n.a[c])]]
 
 Outcome(pr, rows) == [r \in 1..Len(rows) |-> Run(pr, EnvOf(rows[r][1], rows[r][2]))]
+OutcomeG(grid, pr, rows) == [r \in 1..Len(rows) |-> Run(pr, EnvOfG(grid, rows[r][1], rows[r][2]))]
+\* the cx / xc families (and requests about their programs) run over CxGrid
+GridOf(kd, ix) == IF kd \in {"cx", "xc"} \/ (kd = "req" /\ Reqs[ix].grid = 1) THEN CxGrid ELSE EnvGrid
 
 Init == /\ \/ DoD1 /\ kind = "d1" /\ idx \in {1, 2, 3} /\ \E e \in D1Set : prog = << e >>
               /\ (D1All \/ idx = ((HashN(prog[1]) + Seed) % 3) + 1)
+              /\ (D1Mod = 1 \/ ((HashN(prog[1]) \div 3) + Seed) % D1Mod = 0)
            \/ DoSkel /\ kind = "skel" /\ prog \in SkelProgs /\ idx = 0
+              /\ (SkelMod = 1 \/ (HashL(prog, 1) + Seed) % SkelMod = 0)
+           \/ DoCx /\ kind = "cx" /\ idx \in CxDescs(CxFull, Seed, CxMod) /\ prog = <<>>
+           \/ DoXc /\ kind = "xc" /\ idx \in XcDescs(Seed, CxMod) /\ prog = <<>>
            \/ kind = "rnd" /\ idx \in 1..NRand /\ prog = <<>>
            \/ kind = "req" /\ idx \in 1..Len(Reqs) /\ prog = <<>>
            \/ DoOpt /\ kind = "opt" /\ idx \in 1..Len(DefVals) /\ prog \in OptProgs(0)
@@ -69,11 +84,14 @@ Next == /\ ~done
         /\ done' = TRUE
         /\ UNCHANGED <<kind, idx>>
         /\ prog' = CASE kind = "rnd" -> RandProg(idx) [] kind = "req" -> Reqs[idx].prog
-                      [] kind = "d1" -> InContext(idx, prog[1]) [] OTHER -> prog
+                      [] kind = "d1" -> InContext(idx, prog[1])
+                      [] kind = "cx" -> CxProgOf(CxFull, Seed, idx) [] kind = "xc" -> XcProgOf(Seed, idx)
+                      [] OTHER -> prog
         /\ LET rows == RowsOf(kind, idx, prog')
                keep == IF kind = "opt" THEN Reference(prog', DefVals[idx], FALSE) ELSE prog'
                drop == IF kind = "opt" THEN Reference(prog', DefVals[idx], TRUE) ELSE prog'
-           IN /\ out' = IF kind = "opt" THEN Outcome(keep, rows) \o Outcome(drop, rows) ELSE Outcome(prog', rows)
+           IN /\ out' = IF kind = "opt" THEN Outcome(keep, rows) \o Outcome(drop, rows)
+                         ELSE OutcomeG(GridOf(kind, idx), prog', rows)
               /\ (Emit => IF kind = "opt"
                            THEN PrintT(<<"CASE", ToJson([spec |-> "JsSemOpt", idx |-> idx, dv |-> DefVals[idx],
                                                     prog |-> [c \in 1..Len(prog') |-> Export(prog'[c])],
@@ -87,7 +105,7 @@ Next == /\ ~done
                                                     labels |-> Labels(prog'), rows |-> rows, expect |-> out'])>>))
 
 (* header record: the environment table, exported once *)
-EnvTable == [spec |-> "JsSemEnvs", q |-> Q, grid |-> EnvGrid,
+EnvTable == [spec |-> "JsSemEnvs", q |-> Q, grid |-> EnvGrid, gridc |-> CxGrid,
              rows |-> [n \in 1..(Q * Q) |-> RowIdx((n - 1) \div Q, (n - 1) % Q)],
              objs |-> [id \in ObjIds |-> ObjDef(id)], maxcalls |-> MaxCalls]
 ASSUME Emit => PrintT(<<"CASE", ToJson(EnvTable)>>)
@@ -103,6 +121,9 @@ Total == done => \A r \in 1..Len(out) :
 (* the orthogonal array has strength 2 *)
 ASSUME \A c1, c2 \in 0..10 : c1 # c2 =>
           Cardinality({<<Cell(i, j, c1), Cell(i, j, c2)>> : i \in 0..(Q - 1), j \in 0..(Q - 1)}) = Q * Q
+(* the cx family inhabits EVERY (context, operand kind) pair, in the covering sample as well *)
+ASSUME DoCx => CxPairs(CxDescs(CxFull, Seed, CxMod)) = (1..NCtx) \X (1..Len(CxShapes(CxFull, Seed, 1)))
+ASSUME DoXc => CxPairs(XcDescs(Seed, CxMod)) = (1..NCtx) \X (1..Len(XcShapes(Seed, 1)))
 (* every pattern class named by the property is inhabited by the exhaustive families *)
 Inhabited(progs) == \A c \in RequiredClasses : \E pr \in progs : c \in Labels(pr)
 =============================================================================
